@@ -44,11 +44,12 @@ Definition exp_part (x : Z) : bytes :=
   let a := Z.abs x in
   101 :: (if x <? 0 then 45 else 43) :: (if a <? 10 then 48 :: dec_nat a else dec_nat a).
 
-(** largest x with 10^x <= value, found from an estimate: [ge10 x] decides 10^x <= value *)
-Fixpoint exp10_down (fuel : nat) (ge10 : Z -> bool) (x : Z) : Z :=
-  match fuel with O => x | S f => if ge10 x then x else exp10_down f ge10 (x - 1) end.
-Fixpoint exp10_up (fuel : nat) (ge10 : Z -> bool) (x : Z) : Z :=
-  match fuel with O => x | S f => if ge10 (x + 1) then exp10_up f ge10 (x + 1) else x end.
+(** normalisation of a positive rational n/d together with a decimal exponent x so that
+    1 <= n/d < 10, keeping (n/d) * 10^x constant; the estimate is at most a few steps off *)
+Fixpoint scale_down (fuel : nat) (n d x : Z) : Z * Z * Z :=
+  match fuel with O => (n, d, x) | S f => if n <? d then scale_down f (n * 10) d (x - 1) else (n, d, x) end.
+Fixpoint scale_up (fuel : nat) (n d x : Z) : Z * Z * Z :=
+  match fuel with O => (n, d, x) | S f => if d * 10 <=? n then scale_up f n (d * 10) (x + 1) else (n, d, x) end.
 
 (** sprintf "%1.<P>g" of a finite double.  (The field width 1 never pads.) *)
 Definition fmt_g (P : Z) (d : dbl) : bytes :=
@@ -58,14 +59,15 @@ Definition fmt_g (P : Z) (d : dbl) : bytes :=
       (* the exact value is num / den *)
       let num := if 0 <=? e then Zpos m * 2 ^ e else Zpos m in
       let den := if 0 <=? e then 1 else 2 ^ (- e) in
-      (* X = floor (log10 (num / den)): an estimate from the bit lengths, then exact adjustment *)
-      let ge10 (x : Z) := if 0 <=? x then den * 10 ^ x <=? num else den <=? num * 10 ^ (- x) in
+      (* X = floor (log10 (num / den)): an estimate from the bit lengths, then exact adjustment;
+         afterwards value = (nS / dS) * 10^X with 1 <= nS / dS < 10 *)
       let x0 := ((Z.log2 num - Z.log2 den) * 30103) / 100000 in
-      let X := exp10_up 8 ge10 (exp10_down 8 ge10 x0) in
+      let t := 10 ^ (Z.abs x0) in
+      let '(nS1, dS1, x1) := scale_down 8 (if 0 <=? x0 then num else num * t) (if 0 <=? x0 then den * t else den) x0 in
+      let '(nS, dS, X) := scale_up 8 nS1 dS1 x1 in
       (* the P-digit integer nearest to value / 10^(X - P + 1), ties to even *)
-      let k := X - P + 1 in
-      let N := if 0 <=? k then num else num * 10 ^ (- k) in
-      let Dn := if 0 <=? k then den * 10 ^ k else den in
+      let N := nS * 10 ^ (P - 1) in
+      let Dn := dS in
       let q := N / Dn in
       let r := N mod Dn in
       let q' := if 2 * r <? Dn then q else if Dn <? 2 * r then q + 1 else if Z.even q then q else q + 1 in
